@@ -27,6 +27,8 @@ pub const ORDINARY: [&str; 10] = ["a = 0;", "a = b;", "X = a;", "a++;", "b += a;
 pub enum TCase {
     /// csleep(n) between two marker strobes, with context statements before and after
     Sleep { n: i32, before: usize, after: usize },
+    /// several csleeps in a row between the markers
+    SleepSeq(Vec<i32>),
     /// sleep values that must be rejected
     SleepReject(i32),
     /// sequence of statements (source text) checked for its ordered explicit-access trace
@@ -42,6 +44,18 @@ pub fn cases(tier: Tier) -> Vec<TCase> {
                     continue;
                 }
                 v.push(TCase::Sleep { n, before: b, after: a });
+            }
+        }
+    }
+    for n1 in 2..=10 {
+        for n2 in 2..=10 {
+            v.push(TCase::SleepSeq(vec![n1, n2]));
+        }
+    }
+    for n1 in [5, 7, 9, 10] {
+        for n2 in [2, 5, 7, 10] {
+            for n3 in [3, 7, 9] {
+                v.push(TCase::SleepSeq(vec![n1, n2, n3]));
             }
         }
     }
@@ -126,8 +140,10 @@ fn prep_tag(e: &PrepFail) -> String {
 
 const LEVELS: [&str; 4] = ["-O0", "-O1", "-O2", "-O3"];
 
-fn run_sleep(n: i32, before: usize, after: usize) -> CaseOutcome {
-    let body = format!("{} strobe(M1); csleep({}); strobe(M2); store(sav); {}", CONTEXT[before], n, CONTEXT[after]);
+fn run_sleep(ns: &[i32], before: usize, after: usize) -> CaseOutcome {
+    let n: i32 = ns.iter().sum();
+    let sleeps: String = ns.iter().map(|k| format!("csleep({});", k)).collect::<Vec<_>>().join(" ");
+    let body = format!("{} strobe(M1); {} strobe(M2); store(sav); {}", CONTEXT[before], sleeps, CONTEXT[after]);
     let body_ref = format!("{} strobe(M1); strobe(M2); store(sav); {}", CONTEXT[before], CONTEXT[after]);
     let case = mk_case(&body);
     let case_ref = mk_case(&body_ref);
@@ -353,7 +369,7 @@ impl Check for C18 {
         "exploration"
     }
     fn rule(&self) -> String {
-        "(1) csleep: for n = 2..10, 'ctx1; strobe(M1); csleep(n); strobe(M2); store(sav); ctx2' for every pair of 16 context statements (quick: a third of the pairs), at -O0..-O3, on a cycle-accurate emulator: the cycles between the two marker stores must equal n for every input, and RAM, X, Y and A (captured by store(sav)) must equal those of the same program without the csleep; csleep(n) for n outside 2..10 must be rejected. (2) explicit accesses: all sequences of <= 3 statements with at least one (quick: at least two) of load/store/strobe on dedicated hardware-register addresses (zero page and absolute), asm lines and csleep, mixed with 10 ordinary statements, plus explicit statements inside if/else, for, while, do-while and switch: the ordered list of (read/write, address) accesses to the register addresses and of executed asm lines on the emulator must equal the list the source prescribes (reference interpreter events) for every input at every level -O0..-O3, and be identical across levels. Non-trivial = executed; distinct outcomes = distinct cycle counts / traces.".into()
+        "(1) csleep: for n = 2..10, 'ctx1; strobe(M1); csleep(n); strobe(M2); store(sav); ctx2' for every pair of 16 context statements (quick: a third of the pairs), at -O0..-O3, on a cycle-accurate emulator: the cycles between the two marker stores must equal n for every input, and RAM, X, Y and A (captured by store(sav)) must equal those of the same program without the csleep; all pairs and selected triples of adjacent csleeps must add up; csleep(n) for n outside 2..10 must be rejected. (2) explicit accesses: all sequences of <= 3 statements with at least one (quick: at least two) of load/store/strobe on dedicated hardware-register addresses (zero page and absolute), asm lines and csleep, mixed with 10 ordinary statements, plus explicit statements inside if/else, for, while, do-while and switch: the ordered list of (read/write, address) accesses to the register addresses and of executed asm lines on the emulator must equal the list the source prescribes (reference interpreter events) for every input at every level -O0..-O3, and be identical across levels. Non-trivial = executed; distinct outcomes = distinct cycle counts / traces.".into()
     }
     fn assumptions(&self) -> Vec<String> {
         vec!["the status flags are not counted as a register value".into(), "DUMMY ($2D) is not a program variable".into(), "marker store STA zp costs 3 cycles".into()]
@@ -364,13 +380,15 @@ impl Check for C18 {
     fn case_ident(&self, tier: Tier, idx: usize) -> String {
         match &self.cs(tier)[idx] {
             TCase::Sleep { n, before, after } => format!("C18|sleep|{}|{}|{}", n, before, after),
+            TCase::SleepSeq(ns) => format!("C18|sleepseq|{:?}", ns),
             TCase::SleepReject(n) => format!("C18|reject|{}", n),
             TCase::Trace(b) => format!("C18|trace|{}", b),
         }
     }
     fn run_case(&self, tier: Tier, idx: usize) -> CaseOutcome {
         match &self.cs(tier)[idx] {
-            TCase::Sleep { n, before, after } => run_sleep(*n, *before, *after),
+            TCase::Sleep { n, before, after } => run_sleep(&[*n], *before, *after),
+            TCase::SleepSeq(ns) => run_sleep(ns, 0, 0),
             TCase::SleepReject(n) => run_reject(*n),
             TCase::Trace(b) => run_trace(b),
         }
@@ -380,7 +398,7 @@ impl Check for C18 {
         let mut tr = 0;
         for c in self.cs(tier) {
             match c {
-                TCase::Sleep { .. } => sl += 1,
+                TCase::Sleep { .. } | TCase::SleepSeq(_) => sl += 1,
                 TCase::Trace(_) => tr += 1,
                 _ => {}
             }
